@@ -76,12 +76,17 @@ func runModeTry(procs *[]Process, tryErr bool) (exitNum int) {
 
 			if next < len(*procs) {
 				if exitNum < 1 && (*procs)[next].OperatorLogicOr {
-					i++
-					(*procs)[i].SetTerminatedState(true)
-					(*procs)[i].Stdout.Close()
-					(*procs)[i].Stderr.Close()
-					GlobalFIDs.Deregister((*procs)[i].Id)
-					(*procs)[i].State.Set(state.AwaitingGC)
+					// Skip the whole alternative, ie every stage of its
+					// pipeline. A skipped alternative counts as succeeding
+					// so any `||` alternatives following it are skipped too.
+					for i+1 < len(*procs) && ((*procs)[i+1].OperatorLogicOr || (*procs)[i+1].IsMethod) {
+						i++
+						(*procs)[i].SetTerminatedState(true)
+						(*procs)[i].Stdout.Close()
+						(*procs)[i].Stderr.Close()
+						GlobalFIDs.Deregister((*procs)[i].Id)
+						(*procs)[i].State.Set(state.AwaitingGC)
+					}
 					continue
 				}
 
@@ -124,12 +129,17 @@ func runModeTryPipe(procs *[]Process, tryPipeErr bool) (exitNum int) {
 		next := i + 1
 		if next < len(*procs) {
 			if exitNum < 1 && (*procs)[next].OperatorLogicOr {
-				i++
-				(*procs)[i].SetTerminatedState(true)
-				(*procs)[i].Stdout.Close()
-				(*procs)[i].Stderr.Close()
-				GlobalFIDs.Deregister((*procs)[i].Id)
-				(*procs)[i].State.Set(state.AwaitingGC)
+				// Skip the whole alternative, ie every stage of its
+				// pipeline. A skipped alternative counts as succeeding
+				// so any `||` alternatives following it are skipped too.
+				for i+1 < len(*procs) && ((*procs)[i+1].OperatorLogicOr || (*procs)[i+1].IsMethod) {
+					i++
+					(*procs)[i].SetTerminatedState(true)
+					(*procs)[i].Stdout.Close()
+					(*procs)[i].Stderr.Close()
+					GlobalFIDs.Deregister((*procs)[i].Id)
+					(*procs)[i].State.Set(state.AwaitingGC)
+				}
 				continue
 			}
 
